@@ -78,6 +78,8 @@ def geom_stages(ctx, lazy=False):
                              bases=bases[:2] if ctx.quick() else bases, per_step=10)
     stages.stage_sim_lookups(ctx, "GeomBig", num=200 if ctx.quick() else 1500, depth=40, bases=bases[:1],
                              per_step=16, p_lookup=0.35)
+    from . import driver
+    driver.stage_traces(ctx, "TraceData", n_traces=30 if ctx.quick() else 300, length=60 if ctx.quick() else 100)
 
 
 @plan("C05", "C06")
@@ -101,6 +103,8 @@ def p_lazy(ctx):
     if not stages.WARM:
         lazy_index_stage(ctx)
         lazy_class_stage(ctx)
+        from . import driver
+        driver.stage_traces(ctx, "TraceData", n_traces=30 if ctx.quick() else 300, length=60 if ctx.quick() else 100)
     ctx.assumptions.append("the hook-reported get() branch is coverage evidence only; verdicts use public answers")
     return "model_checking", RULE_LOOKUP + "; schedules: the spec's Lookup actions are interleaved with edits in every order the bounded model allows"
 
@@ -262,6 +266,8 @@ def p_symx(ctx):
         stages.stage_graph_lookups(ctx, n, result=r, per_step=8,
                                    bases=(0, core.BASES["2^64-40"]) if ctx.quick() else tuple(core.BASES.values()))
     stages.stage_sim_lookups(ctx, "SymXBig", num=200 if ctx.quick() else 1500, depth=40, bases=(0,), per_step=12, p_lookup=0.35)
+    from . import driver
+    driver.stage_traces(ctx, "TraceData", n_traces=30 if ctx.quick() else 300, length=60 if ctx.quick() else 100)
     return "model_checking", RULE_LOOKUP
 
 
